@@ -566,8 +566,8 @@ impl Check for C18 {
          against a literal of the declared type plus ordering checks; at the end the container is compared with one rebuilt from the \
          model's contents). oracle: printed lines == model lines and the run ends normally. non-trivial = accepted, >= 5 rendered \
          operations, and at least one removal after an insertion or one absent lookup; distinct by hash of the case. \
-         Inputs excluded as unspecified by docs/signatures (skipped when rendered, counted as labels excluded:*): list.set with an \
-         index outside 0..len-1; div(a, 0); the direction in which div rounds a negative inexact quotient (only |a - q*b| < |b| is \
+         list.set with an index outside 0..len-1 is modelled as 'nothing changes'. Inputs excluded as unspecified by docs/signatures \
+         (skipped when rendered, counted as labels excluded:*): div(a, 0); the direction in which div rounds a negative inexact quotient (only |a - q*b| < |b| is \
          checked there); sign(0) and sign(0.0); clamp with lo > hi; mixing int and float arguments; |x| > 2^31. \
          Tuple keys with adjacent string components get planted pairs of distinct keys that print the same text (the former \
          key-collision findings, repaired in e1155ea)."
